@@ -56,6 +56,7 @@ def parseOp (ts : List String) : Option Op :=
     let bs ← unhex h
     let (ms, _) := Json.unmarshal bs
     pure (.unmarshal (ms.toList.map fun (k, v) => (k, Cells.ofJV v)))
+  | "nop" :: _ => pure (.importSlice [])   -- something happened next to the row (a clone grew): nothing for the row
   | ["um"] => do
     let (ms, _) := Json.unmarshal []
     pure (.unmarshal (ms.toList.map fun (k, v) => (k, Cells.ofJV v)))
@@ -150,6 +151,9 @@ def runCase (opsField obsField : String) : Result := Id.run do
       o := o'
       if r'.iter.any (fun (_, v) => match v with | some v => v.show == poison.show | none => false) then
         return ⟨"X", s!"step {step} op [{os}]: model abstains (standard-library answer needed)"⟩
+      if ob == "skip" then
+        step := step + 1
+        continue
       let mo := observeL r (errName syn e)
       let so := observeO o (errName syn e')
       -- a cell with a format or raw type that converts may refuse to be written (boolean cell holding
